@@ -352,6 +352,16 @@ def fresh_state(Q: Set[State], hint: str = 'P') -> State:
         index = index + 1
 
 
+def fresh_epsilon(Sigma: Set[Symbol], hint: str = 'ε') -> Symbol:
+    """Returns a symbol that does not occur in Sigma, to be used as the epsilon of an NFA over Sigma"""
+    epsilon = Symbol(hint)
+    index = 1
+    while epsilon in Sigma:
+        epsilon = Symbol('{}{}'.format(hint, index))
+        index = index + 1
+    return epsilon
+
+
 def automaton_to_dfa(A: Automaton, transition_regex=default_transition_label_regex(), state_regex=default_state_label_regex()) -> DFA:
     return DFABuilder(A, state_regex=state_regex, transition_regex=transition_regex).build()
 
@@ -510,7 +520,7 @@ def dfa_symmetric_difference(D1: DFA, D2: DFA) -> DFA:
 
 
 def dfa_reverse(D: DFA) -> NFA:
-    epsilon = Symbol('ε')
+    epsilon = fresh_epsilon(D.Sigma)
 
     q0 = fresh_state(D.Q, 'q')
     Q = D.Q.copy() | {q0}
@@ -525,7 +535,7 @@ def dfa_reverse(D: DFA) -> NFA:
 
 
 def dfa_no_prefix(D: DFA) -> NFA:
-    epsilon = Symbol('ε')
+    epsilon = fresh_epsilon(D.Sigma)
 
     Q = D.Q.copy()
     Sigma = D.Sigma.copy()
